@@ -23,7 +23,7 @@ Build(d) ==
               <<Ins("fc", NoPar, <<1, 2, 3>>)>>, <<>>, 0, FALSE)
   ELSE LET batch == d[2] feat == d[3] out == d[4]
        IN MkCaseD("c16", "fc", <<In("w", <<out>>, d[5][1]), In("b", <<out>>, d[5][2]), In("x", <<batch, feat>>, d[5][3]), In("g", <<batch, out>>, FALSE)>>,
-                  <<"any", "any", "any", "any">>,
+                  <<"any,any,tiny250", "any", "any,any,huge250", "any">>,        \* third profile: weights below 1e-240 against inputs above 1e240
                   <<Ins("fc", NoPar, <<1, 2, 3>>), Ins("mul", NoPar, <<5, 4>>)>>, <<5>>, 6, FALSE)
 
 Cases == [i \in DOMAIN Descs |-> Build(Descs[i])]
